@@ -25,6 +25,7 @@ def scenarios():
         out.append(dict(base, name=tag + "/cold/nested-vs-leaf", warm=[], threads=[[["tg", 1]], [["tf", 1]]]))
         out.append(dict(base, name=tag + "/cold/batch-vs-leaf", warm=[], threads=[[["th", 1]], [["tf", 2]]]))
         out.append(dict(base, name=tag + "/cold/exception-same", warm=[], threads=[[["tf", 13]], [["tf", 13]]]))
+        out.append(dict(base, name=tag + "/cold/same-call-two-spellings", warm=[], threads=[[["tf", 1]], [["tf", 1, "partial"]]]))
     return out
 
 
